@@ -52,7 +52,7 @@ chk("C17", "model_checking",
 chk("C18", "model_checking",
     "complete enumeration of a bounded NDL grammar with an independent reference elaborator (conformance) + exhaustive single-point mutation (semantic menu and every scalar x token menu) for totality",
     "All 8192 documents of a 13-feature grammar (incl. several fields typed with one generic parameter and size-one clusters) are built into a real Sim and compared (module paths with registered software, gate clusters, connections with link metrics) with a reference elaborator; 17 semantic single-point mutations (one per error cause in the statement) on all 8192 documents must yield an error; every scalar of 4 hand-written + 64 (quick) / 8192 (thorough) generated documents is replaced by each of 75 garbled or dangling tokens and parsing + elaboration must never panic.",
-    "Build-phase panics on descriptions outside the statement's precondition (gate connected to itself or to more than two peers, duplicate/empty submodule names, non-numeric or negative link parameters) are tolerated and counted, identified by their message.",
+    "Build-phase panics of textually mutated documents (descriptions outside the statement's precondition: gate connected to itself or to more than two peers, duplicate/empty submodule names, non-numeric or negative link parameters) are counted, not judged; instantiation of valid documents is judged by the conformance part.",
     "DESIGN.md section 4, C18")
 
 chk("C05", "model_checking",
